@@ -178,3 +178,52 @@ class _Opaque:
 for _k in (1, 2, 3):
     for _cls, _nm in ((NP, "nonparametric"), (GA, "gaussian"), (BO, "bootstrap")):
         unit("C14", f"gate.{_nm}.k{_k}", fns=[f"{CL}.get_estimates", f"{_cls}.get_minimum_reporting_units"])(lambda h, _k=_k, _cls=_cls: _gate(h, _k, _cls))
+
+
+def _gate_any_number_of_levels(h, model_cls):
+    """the gate for an ARBITRARY number of requested levels: the max-loop of get_estimates is verified with a loop
+    invariant (initially / preserved / used after the loop) instead of being unrolled"""
+    from contracts.common import symlist
+
+    levels = symlist(h, "prediction_intervals", z3.RealSort())
+    A = levels.space
+    x = z3.Int("x!lvl")
+    h.ctx.assume(z3.ForAll([x], z3.Implies(z3.And(x >= 0, x < A.n), z3.And(z3.substitute(levels.elem, (A.u, x)) > 0, z3.substitute(levels.elem, (A.u, x)) < 1))))
+    h.requires("levels_open", levels.elem > 0, levels.elem < 1)
+    n = h.int("n_reporting")
+    h.requires("n_nonneg", n >= 0)
+    model = h.obj(model_cls)
+    kind, mg = h.call_method(model, "get_minimum_reporting_units", V(levels.elem))
+    if kind == "raise":
+        return h.fail("minimum.no_raise", "raised")
+    mterm = real(to_term(mg))
+    minf = lambda j: z3.substitute(mterm, (A.u, j))  # noqa: E731
+
+    def inv(get, i, seq):
+        M = real(to_term(get("minimum_reporting_units_max")))
+        j = z3.Int("j!inv")
+        return z3.And(i >= 0, i <= A.n, M >= 0, z3.ForAll([j], z3.Implies(z3.And(j >= 0, j < i), M >= minf(j))), z3.Or(M == 0, z3.Exists([j], z3.And(j >= 0, j < i, M == minf(j)))))
+
+    h.interp.loop_invariants = {"*": inv}
+    self = h.obj(CL, model=model)
+    kind, env = h.slice(f"{CL}.get_estimates", first_assign="minimum_reporting_units_max", last_assign="minimum_reporting_units_max", env={"self": self, "prediction_intervals": levels})
+    if kind == "raise":
+        return h.fail("maxloop.no_raise", f"raised {env}")
+    mx = env["minimum_reporting_units_max"]
+    M = real(to_term(mx))
+    j = z3.Int("j!post")
+    is_max = z3.And(z3.ForAll([j], z3.Implies(z3.And(j >= 0, j < A.n), M >= minf(j))), z3.Or(z3.And(A.n == 0, M == 0), z3.Exists([j], z3.And(j >= 0, j < A.n, M == minf(j)))), M >= 0)
+    h.ensures("after_the_loop_it_is_the_largest_minimum", is_max)
+    kind, env2 = h.slice(f"{CL}.get_estimates", first_assign="n_reporting_expected_units", until_raise="ModelNotEnoughSubunitsException", env={"self": self, "minimum_reporting_units_max": mx, "reporting_units": _Frame0(n), "unexpected_units": _Opaque(), "nonreporting_units": _Frame0(h.int("n_nonrep")), "non_modeled_units": []})
+    too_few = z3.ToReal(n.t) < M
+    if kind == "raise":
+        h.ensures("raises_dedicated_error", env2.clsname == "ModelNotEnoughSubunitsException")
+        h.ensures("raises_only_if_too_few", too_few)
+    else:
+        h.ensures("passes_only_if_enough", z3.Not(too_few))
+
+
+from pyvc.values import real, to_term  # noqa: E402
+
+for _cls, _nm in ((NP, "nonparametric"), (GA, "gaussian"), (BO, "bootstrap")):
+    unit("C14", f"gate.{_nm}.any_number_of_levels", fns=[f"{CL}.get_estimates", f"{_cls}.get_minimum_reporting_units"])(lambda h, _cls=_cls: _gate_any_number_of_levels(h, _cls))
